@@ -23,7 +23,7 @@ def run(ctx):
     ctx.cov["rule"] = ("one event per plugin call; non-trivial = calls that raised the threefold flag (each needs a history "
                        "with two earlier occurrences); distinct = calls (each has its own history).")
     keys = ctx.keys()
-    jobs = [("shuffle", "", i, 2500 if quick else 40000) for i in range(10 if quick else 14)]
+    jobs = [("shuffle", "", i, 2500 if quick else 40000) for i in range(10 if quick else 42)]
     jobs.append(("long", "std", 0, 1200))
     pass
 
